@@ -143,6 +143,12 @@ def check_local(desc):
         out.append(('tolocal', r, {'cell': e, 'expected_local_matrix': exp.tolist(), 'got_local_matrix': L[e].tolist()} if r > TOL else None))
     back = coo.fromlocal(L)
     out.append(('fromlocal-tolocal', 0.0 if np.array_equal(back.data, coo.data) else float('inf'), None))
+    alias = 0.0
+    for arr in (L, np.ascontiguousarray(L), np.asfortranarray(np.array(L))):
+        r_ = coo.fromlocal(arr)
+        if arr.size and (np.shares_memory(r_.data, arr) or np.shares_memory(r_.data, coo.data)):
+            alias = float('inf')
+    out.append(('fromlocal-aliases', alias, None))
     if desc.get('facet'):
         fu, fv = FacetBasis(m, eu, intorder=io), FacetBasis(m, ev, intorder=io)
         cf = BilinearForm(lambda *a: (2.0 - 1.0j) * f(*a), dtype=np.complex128).elemental(fu, fv, **dict(par))
@@ -314,6 +320,7 @@ def check_dotinv(desc):
     out.append(('dot-complex', _rel(zc, cooc.tocsr() @ x), None))
     if desc['eu'].startswith('DG:') or e.interior_dofs == B.Nbfun:
         inv = coo.inverse()
+        out.append(('inverse-aliases', 1.0 if np.shares_memory(inv.data, coo.data) else 0.0, None))
         Li, L = inv.tolocal(), coo.tolocal()
         err = max(float(np.abs(Li[k] @ L[k] - np.eye(L.shape[1])).max()) for k in range(L.shape[0]))
         out.append(('inverse-local', err if err > 1e-7 else 0.0, None))
@@ -536,6 +543,8 @@ def _key(desc, name):
         return 'compositebasis:equal-dofnum'
     if name in ('dot-complex', 'tolocal-facet-sum'):
         return f'coo:{name}'
+    if name in ('fromlocal-aliases', 'inverse-aliases'):
+        return 'coo:fromlocal-aliases-input' if name == 'fromlocal-aliases' else 'coo:inverse-aliases'
     if name.startswith('asm-lists-vector-param'):
         return 'asm:vector-parameter-over-basis-lists'
     if name == 'asm-idx-jump':
